@@ -144,7 +144,7 @@ class History:
             try:
                 d, tid = self.load(k)
             except KeyErr:
-                return acc, 'err:KeyError'
+                continue        # deleted / un-created: no CURRENT record, the iteration skips it
             acc.append((k, tid, d))
         return acc, 'end'
 
